@@ -31,6 +31,7 @@ func init() {
 			{Name: "crlf", TShards: 2, Run: c06CRLF},
 			{Name: "files", TShards: 4, Run: c06Files},
 			{Name: "huge", QShards: 6, TShards: 16, Run: c06Huge},
+			{Name: "histories", QShards: 2, TShards: 6, Run: codecHistories(c06Formats...)},
 			{Name: "parallel", Race: true, TShards: 2, Run: c06Parallel},
 			{Name: "prefixes", Run: func(c *Ctx) {
 				for i, f := range c06Formats {
